@@ -1,7 +1,8 @@
 """C03 - VBS framing: any record list survives write then read, with byte-exact layout.
 
 1. TLC exhaustive: MC_Vbs (writer lifecycle + reader at small P; LayoutInv, ReadBackInv) blocked and unblocked.
-2. TLC-generated lifecycle behaviours (MC_VbsHist) replayed on the real writer/reader at real size.
+2. (the TLC-generated lifecycle behaviours of MC_VbsHist are replayed on the real writer/reader by C11, which shares
+   the specification; this check adds the configured maximum record length changed at run time)
 3. code -> spec: recorded write/read executions with concrete bytes validated by Trace_Vbs:
    single-record files of every length 1..MaxLen(+2) (quick: boundary lengths), blocked and unblocked, class API and
    list/bytes functions; multi-record lists biased to put prefixes / record ends at payload offsets 1008..1016.
